@@ -270,14 +270,17 @@ func init() {
 					b = pick(r, bad)
 				}
 				fn := b.build(r.fork())
+				ctxClass := c01Decorate(fn, r.fork())
 				clone := c09Clone(fn)
 				clone.Name = fmt.Sprintf("f%d", j)
+				clone.Attributes, clone.LocalSize, clone.Signature = fn.Attributes, fn.LocalSize, fn.Signature
 				clones[j] = clone
 				file.AddSection(clone)
 				before[j] = clone.Instructions()
 				stats["fn_kind:"+b.name]++
 				// the per-function route: the real passes one by one on THIS function alone
 				c, ok, _ := c01RunPipeline(fn)
+				c.contextClass = ctxClass
 				cases[j] = c
 				for _, l := range c.pre {
 					o.emit(l.req, l.resp)
@@ -357,6 +360,7 @@ func init() {
 				o.emit("accept-bind "+bindReq+" => "+strings.TrimPrefix(out, "ok "), "ok")
 				o.emit("accept-enc "+encReq, "ok")
 				stats["compiled_functions_judged"]++
+				c01ContextStats(stats, "compiled:", &c)
 				if c.nVirt > 0 {
 					stats["compiled_functions_judged_with_virtuals"]++
 				}
